@@ -79,9 +79,12 @@ def tzkey(tzi):
 def obs(v):
     """Canonical observation of a Python temporal value: kind, fields, zone key, utcoffset."""
     if isinstance(v, datetime):
-        off = v.utcoffset()
-        return ("datetime", v.year, v.month, v.day, v.hour, v.minute, v.second, tzkey(v.tzinfo),
-                None if off is None else int(off.total_seconds()))
+        try:
+            off = v.utcoffset()
+            off = None if off is None else int(off.total_seconds())
+        except Exception as e:      # a lazily evaluated custom zone (dateutil tzical) can fail on use
+            off = "utcoffset-raises:" + type(e).__name__
+        return ("datetime", v.year, v.month, v.day, v.hour, v.minute, v.second, tzkey(v.tzinfo), off)
     if isinstance(v, date):
         return ("date", v.year, v.month, v.day)
     if isinstance(v, timedelta):
